@@ -97,7 +97,8 @@ def run(run):
         try:
             rels = {}
             for i in range(12):
-                g = G.Gen(random.Random(rng.random()), G.Opts(unique=True, classes=1, methods=2, stmts=3, depth=1, eol=rng.choice(["\n", "\r\n"])))
+                g = G.Gen(random.Random(rng.random()), G.Opts(unique=True, classes=1, methods=2, stmts=3, depth=1, eol=rng.choice(["\n", "\r\n"]),
+                                                              indent=["    ", "\t", "\t", "  \t"][i % 4]))
                 rels["a/b%d/F%d.java" % (i % 4, i)] = g.file("P%d_" % i)[0].encode("utf-8")
             for rel, b in rels.items():
                 p = os.path.join(root, rel)
